@@ -253,7 +253,7 @@ register('C09',
          'Coq theorems over Layer M (the manager\'s units_of_work and session_connection_map with unit_of_work(), clear(), '
          'clear_connection() and their sweeps, track_cloned_connections()): locality - a step of another independent session changes nothing this session can see; '
          'non-interference for ANY number of sessions and ANY interleaving - what a session sees after the whole schedule equals what it '
-         'sees after its own steps alone, also when sessions set execution options on their connections (an independent session never adopts another unit of work); refinement - what a session sees of the manager in any interleaving is exactly the state of the Layer-B unit-of-work machine run on its own events, so the Layer-B theorems hold per session (C09_each_session_is_a_core_run); quiescence - after its rollback (and after its commit, once registered) a session has neither a '
+         'sees after its own steps alone, also when sessions set execution options on their connections (an independent session never adopts another unit of work); the map functions of the model ARE the code - Gen/ManagerGen.v is regenerated from the current manager.py by a fail-closed translator on every build and proved equal to register / clear / clear_connection / clone_track (C09_*_is_the_code); refinement - what a session sees of the manager in any interleaving is exactly the state of the Layer-B unit-of-work machine run on its own events, so the Layer-B theorems hold per session (C09_each_session_is_a_core_run); quiescence - after its rollback (and after its commit, once registered) a session has neither a '
          'unit of work nor a map entry. Tie to the code: 2 and 3 session programs are interleaved step by step, each session on its own '
          'SQLite database/engine/connection but sharing the one manager, mappers and version classes; after every event the two maps are '
          'read and compared with the model, at the end each database is compared with the solo run of its program (exact equality).',
@@ -293,7 +293,7 @@ def main():
         spec.loader.exec_module(m)
     man = dict(
         version=1,
-        setup_cmd='cd /verif/coq && rm -f Makefile Makefile.conf && coq_makefile -f _CoqProject $(ls Model/*.v Proofs/*.v Checks/*.v Props/*.v Refuted/*.v 2>/dev/null) -o Makefile && timeout 3000 make -j16',
+        setup_cmd='cd /verif/coq && python3 /verif/harness/pytrans.py; rm -f Makefile Makefile.conf && coq_makefile -f _CoqProject $(ls Model/*.v Gen/*.v Proofs/*.v Checks/*.v Props/*.v Refuted/*.v 2>/dev/null) -o Makefile && timeout 3000 make -j16',
         hooks=dict(guard='SQLALCHEMY_CONTINUUM_VERIF', enable='no hooks are needed: the harness observes through public SQLAlchemy events and the manager\'s public attributes',
                    baseline_off_cmd='cd /repo && /venv/bin/python -m pytest -ra -q -p no:cacheprovider --timeout=900 --continue-on-collection-errors',
                    source_commits=[], add_only=True),
